@@ -18,7 +18,7 @@ Witness(N, w, kw, F, q) ==
   /\ subs = {[who |-> w, f |-> f, q |-> q] : f \in F}
   /\ ret = [t \in N |-> NoRet]
   /\ out = O0 /\ closed = [c \in Conns |-> FALSE]
-  /\ last = [a |-> "init"] /\ prev = <<>> /\ steps = 0
+  /\ last = [a |-> "init"] /\ prev = <<>> /\ steps = 0 /\ d2 = [c \in Conns |-> 0]
   /\ hist = << [a |-> [a |-> "connect", c |-> w, k |-> kw, clean |-> TRUE, will |-> [NoWill EXCEPT !.t = "-"]],
                 out |-> Grp(O0, w, {Connack(FALSE, 0)}), closed |-> [c \in Conns |-> FALSE], nsess |-> 1],
                [a |-> [a |-> "subscribe", c |-> w, id |-> 1, req |-> [i \in 1..1 |-> [f |-> "#", q |-> q]]],
@@ -30,7 +30,7 @@ BothUp(N) ==
   /\ sess = [k \in Cids |-> NewSess]
   /\ subs = {} /\ ret = [t \in N |-> NoRet]
   /\ out = O0 /\ closed = [c \in Conns |-> FALSE]
-  /\ last = [a |-> "init"] /\ prev = <<>> /\ steps = 0
+  /\ last = [a |-> "init"] /\ prev = <<>> /\ steps = 0 /\ d2 = [c \in Conns |-> 0]
   /\ hist = << [a |-> [a |-> "connect", c |-> c1, k |-> k1, clean |-> TRUE, will |-> [NoWill EXCEPT !.t = "-"]],
                 out |-> Grp(O0, c1, {Connack(FALSE, 0)}), closed |-> [c \in Conns |-> FALSE], nsess |-> 1],
                [a |-> [a |-> "connect", c |-> c2, k |-> k2, clean |-> TRUE, will |-> [NoWill EXCEPT !.t = "-"]],
@@ -66,6 +66,28 @@ QosNext == steps < MaxSteps /\
   \/ Publish(c1, <<"a">>, 1, FALSE, "w", 1, FALSE)
   \/ Publish(c1, <<"z">>, 0, FALSE, "B", 0, FALSE)
 QosSpec == QosInit /\ [][QosNext]_vars
+
+(* C02, many QoS 2 exchanges open at once (the incoming queue grows beyond its 16 entries, also after its head has
+   moved): long random behaviours generated with TLC -simulate                                               *)
+Q2Open == {sess[k1].p2in[i].id : i \in 1..Len(sess[k1].p2in)}
+Q2ManyNext == steps < MaxSteps /\
+  \/ QosConn
+  \/ \E n \in 1..3 : \E id \in {i \in 1..40 : i \notin Q2Open /\ (\A j \in 1..40 : j \notin Q2Open => i <= j)} :
+        Publish2(c1, <<"a">>, FALSE, IF id % 2 = 0 THEN "x" ELSE "y", id, FALSE)
+  \/ (sess[k1].p2in # <<>> /\ Pubrel(c1, Head(sess[k1].p2in).id))
+  \/ (Len(sess[k1].p2in) > 1 /\ Pubrel(c1, sess[k1].p2in[Len(sess[k1].p2in)].id))
+Q2ManyFinish == steps = MaxSteps /\ steps' = steps + 1 /\ UNCHANGED <<conn, sess, subs, ret, out, closed, last, prev, hist, d2>>
+Q2ManySpec == QosInit /\ [][Q2ManyNext \/ Q2ManyFinish]_vars
+EmitMany == steps <= MaxSteps \/ PrintT(ToJson(hist))
+
+(* C12, broker as sender: QoS 1 / QoS 2 deliveries to the witness, which answers with PUBACK / PUBREC / PUBCOMP *)
+FwdNext == steps < MaxSteps /\
+  \/ QosConn
+  \/ \E id \in {1, 2} : Publish2(c1, <<"a">>, FALSE, "x", id, FALSE)
+  \/ \E id \in {1, 2} : Pubrel(c1, id)
+  \/ Publish(c1, <<"a">>, 1, FALSE, "w", 3, FALSE)
+  \/ SubRec(c2) \/ SubAckOther(c2, "PUBCOMP") \/ SubAckOther(c2, "PUBACK")
+FwdSpec == QosInit /\ [][FwdNext]_vars
 
 (* C07 SUBSCRIBE / UNSUBSCRIBE requests with 1..9 filters, valid and invalid, QoS 0..3 *)
 SNames == {<<"a">>, <<"a","b">>, <<"b">>}
